@@ -75,6 +75,10 @@ def expectedDelta (fos : List FilledOrder) (x : Addr) (d : Denom) : Int :=
 def expectedFees (fos : List FilledOrder) (x : Addr) (d : Denom) : Int :=
   (fos.map fun f => if f.order.owner = x then amountOf f.actualFees d else 0).sum
 
+/-- all fees of a denom paid by the filled orders -/
+def totalFees (fos : List FilledOrder) (d : Denom) : Int :=
+  (fos.map fun f => amountOf f.actualFees d).sum
+
 def transfersNet (ts : List Transfer) (x : Addr) (d : Denom) : Int :=
   Ledger.bal (ts.flatMap Transfer.ledger) x d
 
